@@ -778,6 +778,28 @@ func (x *Exec) binop(s *State, op token.Token, X, Y ssa.Value, rt types.Type, in
 		if b.IsInt() && b.Int.Sign() == 0 {
 			return a
 		}
+		// x | c for an unsigned x and a constant with few set bits: add every bit of c that x does not have
+		for i := 0; i < 2; i++ {
+			if b.IsInt() && b.Int.Sign() > 0 && !signed && b.Int.BitLen() <= bits {
+				nset := 0
+				for k := 0; k < b.Int.BitLen(); k++ {
+					if b.Int.Bit(k) == 1 {
+						nset++
+					}
+				}
+				if nset <= 8 {
+					r := a
+					for k := 0; k < b.Int.BitLen(); k++ {
+						if b.Int.Bit(k) == 1 {
+							has := smt.Mod(smt.Div(a, smt.IntB(pow2(k))), smt.IntC(2))
+							r = smt.Add(r, smt.Mul(smt.IntB(pow2(k)), smt.Sub(smt.IntC(1), has)))
+						}
+					}
+					return r
+				}
+			}
+			a, b = b, a
+		}
 		return x.uninterpOp("or", bits, signed, a, b)
 	case token.XOR:
 		return x.uninterpOp("xor", bits, signed, a, b)
